@@ -452,7 +452,8 @@ def run_check(prop, engine_name, tier, nruns, extra_evidence=None):
     engine = engines.get(engine_name)
     verif_seed = int(os.environ.get("VERIF_SEED", "0") or 0)
     workers = int(os.environ.get("VERIF_WORKERS", "0") or 0) or min(16, os.cpu_count() or 1)
-    budget_s = float(os.environ.get("VERIF_BUDGET_S", "0") or 0) or tier_default(tier, 100, 1500)
+    budgets = getattr(engine, "BUDGETS_S", (100, 1500))
+    budget_s = float(os.environ.get("VERIF_BUDGET_S", "0") or 0) or tier_default(tier, *budgets)
     nruns = int(os.environ.get("VERIF_RUNS", "0") or 0) or nruns
     print(f"[dsim] property={prop} engine={engine_name} tier={tier} VERIF_SEED={verif_seed} "
           f"runs<={nruns} workers={workers} budget_s={budget_s}", flush=True)
